@@ -23,6 +23,28 @@ def run_with_nonce_log(cfg_json, ops):
         for k, (_, ic) in enumerate(mine):
             if ic != cfg.cic + k:
                 return f"C06 operation #{k} under the global key used counter {ic}, expected {cfg.cic + k}"
+        # ... and what leaves the connection says the same: the k-th protected item (ciphered APDU or HLS proof) carries start+k
+        from dlms_cosem.protocol import acse, xdlms
+        k, sent = 0, list(session.sent)
+        for t in trace:
+            if not t["result"].startswith("ok"):
+                continue
+            carried = None
+            if t["op"][0] == "send":
+                _, _, wire = sent.pop(0)
+                if wire[:1] == b"\xdb":
+                    carried = xdlms.GeneralGlobalCipher.from_bytes(wire).invocation_counter
+                elif wire[:1] in (b"\x60", b"\x62"):
+                    ui = (acse.ApplicationAssociationRequest if wire[0] == 0x60 else acse.ReleaseRequest).from_bytes(wire).user_information
+                    if ui is not None and isinstance(ui.content, xdlms.GlobalCipherInitiateRequest):
+                        carried = ui.content.invocation_counter
+            elif t["op"][0] == "hls":
+                carried = int(t["result"].split()[2])
+            if carried is None:
+                continue
+            if carried != cfg.cic + k:
+                return f"C06 protected item #{k} left the connection carrying counter {carried}, expected {cfg.cic + k}"
+            k += 1
         acc = []
         for t in trace:
             if t["op"][0] == "recv" and t["result"].startswith("ok") and t["bytes"][:1] in (b"\xdb", b"\x61", b"\x63"):
@@ -154,6 +176,16 @@ class C06(fw.Prop):
             ops = [["send", "aarq", 1], first_aare, ["send", "getReq", 1], first_get, ["send", "rlrq", 1], p.resp("rlre"),
                    ["send", "aarq", 1], first_aare, p.resp("aare", (0, None)), ["send", "getReq", 1], first_get, p.resp("getRespNormal")]
             yield self.make_case({"cfg": cfg.to_json(), "ops": ops, "tag": "replay-after-release"})
+        # the same AARQ / RLRQ object handed to send() again (new attempt after a rejection, second association): every
+        # protected APDU that leaves carries the next counter
+        for start in (1000, 2 ** 32 - 10):
+            for hls in (False, True):
+                cfg = cl.Cfg(ek=EK, ak=AK, auth=5 if hls else None, cic=start)
+                p = Path("hls", cfg)
+                ops = [["send", "aarq", 1], p.resp("aare", (1, None)), ["send", "aarq", 4], p.resp("aare", (2, None)), ["send", "aarq", 4],
+                       p.resp("aare", (0, None)), ["send", "getReq", 1], p.resp("getRespNormal"), ["send", "rlrq", 1], p.resp("rlre"),
+                       ["send", "aarq", 4], p.resp("aare", (0, None)), ["send", "rlrq", 4], p.resp("rlre"), ["send", "aarq", 1]]
+                yield self.make_case({"cfg": cfg.to_json(), "ops": ops, "tag": "acse-object-sent-again"})
         # a recorded genuine APDU replayed with bits of its (unauthenticated) envelope changed: security-control byte with the
         # key-set / compression bit, another system title - still a replay
         for bits in (0x40, 0x80, 0xC0):
